@@ -280,10 +280,29 @@ func TestVerifDriver(t *testing.T) {
 				rp = Pt(0).ScalarBaseMult(S(1))
 			case "P.VarTimeDoubleScalarBaseMult":
 				rp = Pt(0).VarTimeDoubleScalarBaseMult(S(1), Pt(2), S(3))
-			case "P.MultiScalarMult":
-				rp = Pt(0).MultiScalarMult(SL(1), PL(2))
-			case "P.VarTimeMultiScalarMult":
-				rp = Pt(0).VarTimeMultiScalarMult(SL(1), PL(2))
+			case "P.MultiScalarMult", "P.VarTimeMultiScalarMult":
+				// the slices are carved out of larger arrays (spare capacity, like a caller's batch[:n]) and compared
+				// element by element (pointer identity) afterwards, including the spare part
+				sl, pl := SL(1), PL(2)
+				sbig := append(append([]*Scalar{}, sl...), &Scalar{}, &Scalar{})
+				pbig := append(append([]*Point{}, pl...), NewIdentityPoint(), NewIdentityPoint())
+				scopy := append([]*Scalar{}, sbig...)
+				pcopy := append([]*Point{}, pbig...)
+				if op.Op == "P.MultiScalarMult" {
+					rp = Pt(0).MultiScalarMult(sbig[:len(sl)], pbig[:len(pl)])
+				} else {
+					rp = Pt(0).VarTimeMultiScalarMult(sbig[:len(sl)], pbig[:len(pl)])
+				}
+				for i := range sbig {
+					if sbig[i] != scopy[i] {
+						res["slices_modified"] = fmt.Sprintf("scalars[%d] was replaced", i)
+					}
+				}
+				for i := range pbig {
+					if pbig[i] != pcopy[i] {
+						res["slices_modified"] = fmt.Sprintf("points[%d] was replaced", i)
+					}
+				}
 			case "P.ExtendedCoordinates":
 				X, Y, Z, T := Pt(0).ExtendedCoordinates()
 				res["coords"] = []string{vFE(X), vFE(Y), vFE(Z), vFE(T)}
